@@ -19,6 +19,7 @@ FIELD = {0: "value", 1: "f", 2: "g", 3: "kids", 4: "m", 5: "s", 6: "list_items",
 # 12, 13 exist on an object only after add_trait (the model gates every name by trait existence)
 FILTERS = {"anytrait": [0, 1, 2, 3, 4, 5, 10, 11, 12, 13],   # expression.anytrait(): leaf only (mixed value types)
            "tag": [1, 2, 13],                        # expression.metadata("tag"): f, g (and the dynamic x2) carry tag=True
+           "tagc": [3],                              # expression.metadata("tagc"): the List trait kids carries tagc=True
            "match_fg": [1, 2],                       # expression.match(lambda name, trait: name in ("f", "g"))
            "match_vk": [0, 3]}                       # expression.match(...) on value and kids: leaf only
 LEAF_FILTERS = ("anytrait", "match_vk")
@@ -274,6 +275,10 @@ def gen_graph(rnd, depth, ctx=None):
         return out
     if f in (1, 2, "tag", "match_fg"):
         return [f, notify, optional, subs()]
+    if f == 3 and rnd.random() < 0.35:
+        # a filtered link to a container, followed by further links ("+tagc:items:value")
+        inner = [6, rnd.random() < 0.75, False, subs() if rnd.random() < 0.85 else []]
+        return ["tagc", notify, False, [inner]]
     inner = [f + 3, rnd.random() < 0.75, rnd.random() < 0.3, subs() if rnd.random() < 0.85 else []]
     return [f, notify, optional, [inner]]
 
@@ -335,6 +340,8 @@ def gen_case(rnd, ctx, maxmut, cyclic=False):
                 return ["Cop", c, 6, "pop", [i], [i, 1, []]]
         o = rnd.randrange(npool)
         r = rnd.random()
+        if rnd.random() < 0.04:
+            return ["AddTrait", o, rnd.choice([0, 1, 1, 2])]     # add_trait of an existing (class) trait
         if r < 0.27:
             f = rnd.choice([1, 2])
             v = rnd.choice(list(range(npool)) + [None, None])
@@ -693,6 +700,18 @@ def corpus():
         ["Cop", 3, 6, "setslice", [0, 1, [1, 1, 2]], [0, 1, [1, 1, 2]]]] + probes_for(3) + [
         ["Cop", 3, 6, "pop", [0], [0, 1, []]]] + probes_for(3) + [
         ["Cop", 3, 6, "reverse", [], [0, 2, [2, 1]]], ["Cop", 3, 6, "pop", [0], [0, 1, []]]] + probes_for(3)))
+    # an equal (not identical) list re-assigned under a FILTERED link followed by further links: the new
+    # list must be followed, the old one dropped
+    tkv = ["tagc", False, False, [[6, False, False, [[0, True, False, []]]]]]
+    cs.append(dict(npool=4, shape="acyclic", ops=[
+        ["SetCont", 0, 3, [1], False], ["Observe", 0, 0, tkv], ["SetCont", 0, 3, [1], False]] + probes_for(4) + [
+        ["Cop", 5, 6, "append", [2], [1, 0, [2]]], ["Cop", 4, 6, "append", [3], [1, 0, [3]]]] + probes_for(4) + [
+        ["SetCont", 0, 3, [3], False]] + probes_for(4)))
+    # add_trait of a name that already exists (class trait f, observed): the observers stay on the trait
+    fv = parse_named("f.value")
+    cs.append(dict(npool=3, shape="acyclic", ops=[
+        ["SetRef", 0, 1, 1], ["Observe", 0, 0, fv], ["AddTrait", 0, 1]] + probes_for(3) + [
+        ["SetRef", 0, 1, 2]] + probes_for(3) + [["AddTrait", 0, 1], ["AddTrait", 0, 0], ["SetRef", 0, 1, 1]] + probes_for(3)))
     # finding: del o.kids notifies twice, the new default list is hooked twice; once replaced it keeps calling
     ki = parse_named("kids.items")
     cs.append(dict(npool=3, shape="acyclic-del", name="del-container", ops=[
@@ -745,7 +764,7 @@ def gen_dyn_case(rnd, ctx):
         if r < 0.3:
             f = rnd.choice([12, 13, d, d])
             if (o, f) in have:
-                return None
+                return ["AddTrait", o, f] if rnd.random() < 0.5 else None     # added once more
             have.add((o, f))
             return ["AddTrait", o, f]
         if r < 0.6:
